@@ -65,6 +65,34 @@ def cases(rng, tier):
         if rng.chance(1, 2):
             ops += [("R",), ("O",)]
         out.append(shardprop.mk_case("compact" + ("+crash" if crash else ""), cfg, ntypes, nctx, ops))
+    # one event per zone and memtables of 33..45 events: the merged output of one type exceeds 64 zones in a
+    # single batch (size thresholds inside the merge / zone writer)
+    for j in range(1 if tier == "quick" else 20):
+        cfg = {"fill_factor": rng.range(33, 45), "event_per_zone": 1, "segments_per_merge": 2}
+        ntypes, nctx = rng.range(1, 2), rng.range(1, 3)
+        cap = cfg["fill_factor"]
+        ops = []
+        for s_ in range(rng.choice([2, 2, 4])):
+            ops += [("S", 0 if rng.chance(9, 10) else rng.below(ntypes), rng.below(nctx)) for _ in range(cap)]
+        ops += [("O",), ("C",), ("O",)]
+        if rng.chance(1, 2):
+            ops += [("C",), ("O",)]
+        ops += [("R",), ("O",)]
+        out.append(shardprop.mk_case("compact-many-zones", cfg, ntypes, nctx, ops))
+    # a read fault on one input of the round (its .zones file cannot be opened): the round must not retire what it
+    # could not read; after the file is back every event is still there, also after a further round and a restart
+    for j in range(2 if tier == "quick" else 40):
+        cfg = dict(rng.choice(shardprop.CFGS)); cfg["segments_per_merge"] = 2
+        ntypes, nctx = rng.range(1, 2), rng.range(1, 2)
+        cap = cfg["fill_factor"] * cfg["event_per_zone"]
+        ops = []
+        for s_ in range(2):
+            ops += [("S", 0 if ntypes == 1 or rng.chance(2, 3) else 1, rng.below(nctx)) for _ in range(cap)]
+        ops += [("O",), ("HIDE", rng.below(2), 0), ("C",), ("UNHIDE",), ("O",)]
+        if rng.chance(1, 2):
+            ops += [("C",), ("O",)]
+        ops += [("R",), ("O",)]
+        out.append(shardprop.mk_case("compact-read-fault", cfg, ntypes, nctx, ops))
     return out
 
 
